@@ -394,6 +394,43 @@ func main() {
 		c.NonTrivial()
 	})
 
+	// one-vertex variants of longer sequences: equality must see a difference in every position - the first, the
+	// last (the closing vertex of a closed ring included) and each one in between - from both sides, and through
+	// every container
+	r.Explore("equal-one-vertex-variants", "sequences of 1..7 vertices (closed rings and open ones) x the position of the one edited vertex x 6 kinds / containers: Equal is false in both directions, true for the untouched clone", mc.Opts{MaxDev: -1}, func(c *mc.Ctx) {
+		n := 1 + c.Choose(7)
+		closed := c.Bool()
+		pos := c.Choose(n)
+		base := make([]orb.Point, n)
+		for i := range base {
+			base[i] = orb.Point{float64(i % 3), float64(i / 3)}
+		}
+		if closed && n >= 2 {
+			base[n-1] = base[0]
+		}
+		edited := append([]orb.Point(nil), base...)
+		edited[pos][c.Choose(2)] += 0.5
+		forms := []func(ps []orb.Point) orb.Geometry{
+			func(ps []orb.Point) orb.Geometry { return orb.MultiPoint(ps) },
+			func(ps []orb.Point) orb.Geometry { return orb.LineString(ps) },
+			func(ps []orb.Point) orb.Geometry { return orb.Ring(ps) },
+			func(ps []orb.Point) orb.Geometry { return orb.Polygon{{{0, 0}, {9, 0}, {9, 9}, {0, 0}}, orb.Ring(ps)} },
+			func(ps []orb.Point) orb.Geometry { return orb.MultiPolygon{{{{0, 0}, {9, 0}, {9, 9}, {0, 0}}}, {orb.Ring(ps)}} },
+			func(ps []orb.Point) orb.Geometry { return orb.MultiLineString{{{5, 5}}, orb.LineString(ps)} },
+			func(ps []orb.Point) orb.Geometry { return orb.Collection{orb.Point{1, 1}, orb.Collection{orb.Ring(ps)}} },
+		}
+		for fi, f := range forms {
+			a, b, a2 := f(base), f(edited), f(append([]orb.Point(nil), base...))
+			if orb.Equal(a, b) || orb.Equal(b, a) {
+				c.Failf("equal", "form %d: orb.Equal(%v, %v) = %v, reversed %v; vertex %d differs", fi, a, b, orb.Equal(a, b), orb.Equal(b, a), pos)
+			}
+			if !orb.Equal(a, a2) || !orb.Equal(a2, a) {
+				c.Failf("equal", "form %d: orb.Equal(%v, its copy) is false", fi, a)
+			}
+		}
+		c.NonTrivial()
+	})
+
 	// Bound lattice laws
 	var boxes []orb.Bound
 	cs := []float64{-3, 0, 1, 2}
